@@ -23,6 +23,7 @@ PY
 (cd harness && CARGO_PROFILE_RELEASE_DEBUG_ASSERTIONS=true cargo build --release --offline --target-dir target-dbg)
 # regression corpus of the translators (informative; it edits scratch copies of the source as it is now, so it must never fail the setup)
 python3 tools/translator_selftest.py > work/translator_selftest.log 2>&1 || echo "translator self-test: see work/translator_selftest.log"
+python3 tools/translator_probes.py > work/translator_probes.log 2>&1 || echo "translator probes: see work/translator_probes.log"
 # the Python oracle against the repository's own published vectors (tests/srp6_internal/*.txt, 14 files x 1000); informative
 python3 tools/vectors.py > work/vectors.log 2>&1 || echo "oracle vs published vectors: see work/vectors.log"
 echo setup done
